@@ -10,7 +10,7 @@ This model COMPOSES the finished per-area models; it does not re-model the areas
   change of it is an `Alloc.step` (`.report`, `.delete`, `.setLimit`): field `UpStore.srv`.
 * **C09 `KG.Model.RemoteLimiter`** — every gateway keeps one `RemoteLimiter.State` per upstream (its
   `upstreamLimiter`), moved only by `RemoteLimiter.step` (`.schema`, `.answer`, `.hb`); what a request is handed
-  is `RemoteLimiter.load` / `observe`.
+  is `RemoteLimiter.load` / `observe`. Nothing else of C09's state is looked at (`cache`, `isReady` only).
 * **C18 `KG.Model.Reclaim`** — the heartbeat table has the shape of `Reclaim.State.hb`, the time-out test is
   `Reclaim.timedOut` on the regenerated `Reclaim.timeout`, the two clean-up passes select what `Reclaim.selects` /
   `Reclaim.unknown` select (instance label set by the SECOND report, leader guard of `deleteCondition`).
